@@ -559,12 +559,12 @@ def run(ctx: Ctx):
         "the window width (150) is not judged, only that it is a positive constant",
     ]
     R = C07Rules(ctx)
-    R.o1_single_fold()
-    R.o3_resolver_provenance()
-    R.r1_uniqueness_guard()
-    R.r2_candidate_predicates()
-    R.r4_id_discipline()
-    R.dynamic_features_absent()
+    ctx.guard(R.o1_single_fold)
+    ctx.guard(R.o3_resolver_provenance)
+    ctx.guard(R.r1_uniqueness_guard)
+    ctx.guard(R.r2_candidate_predicates)
+    ctx.guard(R.r4_id_discipline)
+    ctx.guard(R.dynamic_features_absent)
     ctx.floor("R-C07-1", 3)
     ctx.floor("R-C07-2", 10)
     ctx.floor("R-C07-4a", 1)
